@@ -514,20 +514,25 @@ func c19ErrorValueFact() c19Fact {
 	if fd == nil {
 		return c19Unknown("no method identifierRuntime.executeFunction")
 	}
-	protected := func(d *ast.FuncDecl) bool { // a top-level defer of a literal that calls recover() itself
+	// a top-level defer of a function — a literal or a function / method of the package — whose own body calls recover()
+	protected := func(d *ast.FuncDecl) bool {
+		callsRecover := func(b *ast.BlockStmt) bool {
+			found := false
+			c19Walk(b, func(n ast.Node) bool {
+				if ce, ok := n.(*ast.CallExpr); ok && c19IsIdent(ce.Fun, "recover") {
+					found = true
+				}
+				return true
+			})
+			return found
+		}
 		for _, st := range d.Body.List {
 			if ds, ok := st.(*ast.DeferStmt); ok {
-				if lit, ok := ds.Call.Fun.(*ast.FuncLit); ok {
-					found := false
-					c19Walk(lit.Body, func(n ast.Node) bool {
-						if ce, ok := n.(*ast.CallExpr); ok && c19IsIdent(ce.Fun, "recover") {
-							found = true
-						}
-						return true
-					})
-					if found {
-						return true
-					}
+				if lit, ok := ds.Call.Fun.(*ast.FuncLit); ok && callsRecover(lit.Body) {
+					return true
+				}
+				if h := p.resolve(ds.Call, d); h != nil && callsRecover(h.Body) {
+					return true
 				}
 			}
 		}
@@ -552,9 +557,12 @@ func c19ErrorValueFact() c19Fact {
 	}
 	type use struct {
 		unprotected, protectedCalls int
-		nilTest                     bool
 	}
 	var u use
+	// per name bound to err.(*T): is it compared with nil, is its embedded RuntimeError pointer (for
+	// *RuntimeErrorWithDetail), is its Type field?
+	assertedAll := map[string]string{} // name -> asserted type text
+	nilTested, fieldTested, typeTested := map[string]bool{}, map[string]bool{}, map[string]bool{}
 	var scan func(d *ast.FuncDecl, vars map[string]bool, level int)
 	scan = func(d *ast.FuncDecl, vars map[string]bool, level int) {
 		prot := protected(d)
@@ -564,9 +572,13 @@ func c19ErrorValueFact() c19Fact {
 			case *ast.AssignStmt:
 				for i, r := range x.Rhs {
 					if ta, ok := r.(*ast.TypeAssertExpr); ok {
+						if _, isPtr := ta.Type.(*ast.StarExpr); !isPtr {
+							continue // an interface: no pointer of its own to test
+						}
 						if id, ok := ta.X.(*ast.Ident); ok && vars[id.Name] && i < len(x.Lhs) {
 							if l, ok := x.Lhs[i].(*ast.Ident); ok && l.Name != "_" {
 								asserted[l.Name] = true
+								assertedAll[l.Name] = fmt.Sprint(ta.Type)
 							}
 						}
 					}
@@ -574,8 +586,26 @@ func c19ErrorValueFact() c19Fact {
 			case *ast.BinaryExpr:
 				if x.Op == token.EQL || x.Op == token.NEQ {
 					for _, side := range [][2]ast.Expr{{x.X, x.Y}, {x.Y, x.X}} {
-						if id, ok := side[0].(*ast.Ident); ok && asserted[id.Name] && c19IsIdent(side[1], "nil") {
-							u.nilTest = true
+						if !c19IsIdent(side[1], "nil") {
+							continue
+						}
+						if id, ok := side[0].(*ast.Ident); ok && asserted[id.Name] {
+							nilTested[id.Name] = true
+						}
+						// name.RuntimeError == nil, name.Type == nil, name.RuntimeError.Type == nil
+						if se, ok := side[0].(*ast.SelectorExpr); ok {
+							base := se.X
+							if inner, ok := base.(*ast.SelectorExpr); ok && inner.Sel.Name == "RuntimeError" {
+								base = inner.X
+							}
+							if id, ok := base.(*ast.Ident); ok && asserted[id.Name] {
+								if se.Sel.Name == "RuntimeError" {
+									fieldTested[id.Name] = true
+								}
+								if se.Sel.Name == "Type" {
+									typeTested[id.Name] = true
+								}
+							}
 						}
 					}
 				}
@@ -611,10 +641,31 @@ func c19ErrorValueFact() c19Fact {
 	switch {
 	case u.unprotected > 0:
 		return c19No("Error() is called on the error value a function returned, after Run's recover is gone and without a recover of its own: a nil pointer / a panicking Error method takes the interpreter down")
-	case u.protectedCalls > 0 && u.nilTest:
-		return c19Yes("the error text is only obtained inside a function with its own recover, and the runtime-error pointers are compared with nil")
 	case u.protectedCalls > 0:
-		return c19Unknown("the error text is obtained under a recover, but no nil test of the runtime-error pointers was recognised")
+		var missing []string
+		names := make([]string, 0, len(assertedAll))
+		for n := range assertedAll {
+			names = append(names, n)
+		}
+		sort.Strings(names)
+		for _, n := range names {
+			if !nilTested[n] {
+				missing = append(missing, n+" is not compared with nil")
+			}
+			if strings.Contains(assertedAll[n], "RuntimeErrorWithDetail") && !fieldTested[n] {
+				missing = append(missing, "the embedded RuntimeError pointer of "+n+" is not compared with nil")
+			}
+			if !typeTested[n] {
+				missing = append(missing, "the Type field of "+n+" is not compared with nil")
+			}
+		}
+		if len(names) == 0 {
+			missing = append(missing, "no type assertion to a runtime-error pointer was recognised")
+		}
+		if len(missing) == 0 {
+			return c19Yes("the error text is only obtained inside a function with its own recover; every runtime-error pointer taken from the error value, its embedded pointer and its Type field are compared with nil")
+		}
+		return c19Unknown("the error text is obtained under a recover, but: " + strings.Join(missing, "; "))
 	default:
 		return c19Unknown("no call of Error() on the returned error value found in executeFunction or the helpers it calls")
 	}
@@ -1063,6 +1114,37 @@ func c19PluginFact(p *c19Pkg) c19Fact {
 	return res
 }
 
+// c19EffectiveRun: a Run that only delegates (`return ea.call(args)`: no reflective Call of its own, its last
+// statement returns the results of ONE call of a function / method of the package) is followed to the function
+// that does the work — at most three levels. Where the code lives is not what the facts are about.
+func c19EffectiveRun(p *c19Pkg, fd *ast.FuncDecl) *ast.FuncDecl {
+	for level := 0; fd != nil && level < 3; level++ {
+		if c19ContainsReflectCall(fd.Body) || len(fd.Body.List) == 0 {
+			return fd
+		}
+		hasDefer := false
+		for _, st := range fd.Body.List {
+			if _, ok := st.(*ast.DeferStmt); ok {
+				hasDefer = true
+			}
+		}
+		rs, ok := fd.Body.List[len(fd.Body.List)-1].(*ast.ReturnStmt)
+		if hasDefer || !ok || len(rs.Results) != 1 {
+			return fd
+		}
+		ce, ok := rs.Results[0].(*ast.CallExpr)
+		if !ok {
+			return fd
+		}
+		next := p.resolve(ce, fd)
+		if next == nil {
+			return fd
+		}
+		fd = next
+	}
+	return fd
+}
+
 // ------------------------------------------------------------------ output
 
 func c19Extract(args []string) int {
@@ -1075,7 +1157,7 @@ func c19Extract(args []string) int {
 		fmt.Fprintln(os.Stderr, err)
 		return 2
 	}
-	run := p.funcs["ECALFunctionAdapter.Run"]
+	run := c19EffectiveRun(p, p.funcs["ECALFunctionAdapter.Run"])
 	var rec, ar, np c19Fact
 	if run == nil {
 		rec, ar = c19Unknown("no method ECALFunctionAdapter.Run"), c19Unknown("no method ECALFunctionAdapter.Run")
